@@ -47,6 +47,15 @@ def modCfg : ModItemIn :=
     oracle := [{ remaining := 9, consumed := 3, sig := sigA },
                { remaining := 4, consumed := 3, sig := { sigA with ident := "c" } }] }
 
+/-- `mod m { #[cfg_attr(all(), cfg(any()))] pub fn a(d: &impl X) {} pub fn c(d: &impl X) {} }` -/
+def modCfgAttr : ModItemIn :=
+  { ident := "m"
+    body := [p '#', brackets [i "cfg_attr", parens [i "all", parens [], p ',', i "cfg", parens [i "any", parens []]]],
+             i "pub", i "fn", i "a", parens [i "d", p ':', p '&', i "impl", i "X"], braces [],
+             i "pub", i "fn", i "c", parens [i "d", p ':', p '&', i "impl", i "X"], braces []]
+    oracle := [{ remaining := 9, consumed := 3, sig := sigA },
+               { remaining := 4, consumed := 3, sig := { sigA with ident := "c" } }] }
+
 /-- `pub trait Tr<T> { async fn m(&self, _: T) -> T; }` -/
 def traitTr : TraitItem :=
   { vis := [i "pub"], ident := "Tr"
